@@ -14,7 +14,7 @@ def std_inline(callee, ev, path):
     callback dispatcher (a dispatch is a boundary: what runs there is user code / other layers)"""
     if callee.owner is not None and callee.owner.name == "LogWrapper":
         return False
-    if callee.name == "_me_invoke_callbacks":
+    if is_dispatch(callee):
         return False
     if callee.qualname in ("track_future", "record_done", "track_future_noop"):
         return False
@@ -298,3 +298,147 @@ def input_callback(ctx, cls):
     if len(ms) != 1:
         raise AnalysisError("%s: expected exactly one method registered as done-callback, found %s" % (cls.name, sorted(m.name for m in ms)))
     return ms[0]
+
+
+def lock_fields(ctx, cls):
+    """fields of cls initialised to a threading lock in its constructor"""
+    out = []
+    o, init = cls.lookup("__init__")
+    if init is None:
+        return out
+    ps, it = ctx.paths(init, cls, depth=2)
+    for p in ps:
+        for e in p.evs("store"):
+            t = e.d["target"]
+            v = e.d["value"]
+            if q.self_field(t) and isinstance(v, tuple) and v[0] == "extnew" and v[1] in ("Lock", "RLock") and t[2] not in out:
+                out.append(t[2])
+    return out
+
+
+def ctor_param_fields(ctx, cls, pname):
+    """fields of cls that its constructor sets from the (public) constructor parameter `pname`"""
+    o, init = cls.lookup("__init__")
+    out = []
+    if init is None:
+        return out
+    ps, it = ctx.paths(init, cls, depth=2)
+    for p in ps:
+        for e in p.evs("store"):
+            t = e.d["target"]
+            if q.self_field(t) and e.d["value"] == ("param", pname) and len(e.stack) == 0 and t[2] not in out:
+                out.append(t[2])
+    return out
+
+
+def delegate_field(ctx, cls):
+    fs = ctor_param_fields(ctx, cls, "delegate")
+    if len(fs) != 1:
+        raise AnalysisError("%s: field keeping the delegate executor not identified (%s)" % (cls.name, fs))
+    return fs[0]
+
+
+def false_init_fields(ctx, rec):
+    """fields of a record class that its constructor initialises to the constant False (flags)"""
+    init = rec.methods.get("__init__")
+    out = []
+    if init is None:
+        return out
+    ps, it = ctx.paths(init, rec, depth=0)
+    for p in ps:
+        for e in p.evs("store"):
+            if q.self_field(e.d["target"]) and e.d["value"] == ("const", False) and e.d["target"][2] not in out:
+                out.append(e.d["target"][2])
+    return out
+
+
+def cancel_hook(ctx, fut):
+    """name of the method through which _Future.cancel() asks the subclass whether the cancel may proceed: the
+    self-method called by cancel() that subclasses override"""
+    cm = fut.methods.get("cancel")
+    if cm is None:
+        raise AnalysisError("_Future.cancel not found")
+    ps, it = ctx.paths(cm, fut, depth=0)
+    names = set()
+    for p in ps:
+        for e in p.calls():
+            if q.recv(e) == SELF and e.d["callee"] is not None and e.d["callee"].owner is fut:
+                n = e.d["callee"].name
+                if any(n in c.methods for c in ctx.prog.subclasses(fut, strict=True)) and n not in ("done", "cancelled", "running", "set_running_or_notify_cancel"):
+                    names.add(n)
+    if len(names) != 1:
+        raise AnalysisError("_Future.cancel: the subclass hook is not unique (%s)" % sorted(names))
+    return names.pop()
+
+
+def held_throughout(p, term, a, b):
+    """is a lock on `term` held at every event from a to b (inclusive)?"""
+    for e in p.events:
+        if a.seq <= e.seq <= b.seq and not any(l[1] == term for l in e.locks):
+            return False
+    return True
+
+
+class Proto(object):
+    """the library's own future base class and its private protocol, discovered structurally:
+       fut       the package class that extends the stdlib Future and overrides add_done_callback
+       lock      its lock field;  cbs  the list its add_done_callback appends to
+       dispatch  the method that iterates that list calling each element (marked role='dispatch': inlining
+                 policies treat it as a boundary, what runs there is user code)
+       hook      the method through which cancel() asks the subclass
+       cancelled_by_delegate  the method (other than cancel) that performs the stdlib cancel"""
+
+    def __init__(self, ctx):
+        prog = ctx.prog
+        cands = [c for c in prog.classes.values() if "add_done_callback" in c.methods and any(not isinstance(b, ClassInfo) and str(b).endswith("Future") for b in c.mro())]
+        if len(cands) != 1:
+            raise AnalysisError("the library's future base class (overrides add_done_callback) is not unique: %s" % [c.name for c in cands])
+        self.fut = fut = cands[0]
+        lf = lock_fields(ctx, fut)
+        if len(lf) != 1:
+            raise AnalysisError("%s: expected one lock field, found %s" % (fut.name, lf))
+        self.lock = lf[0]
+        adc = fut.methods["add_done_callback"]
+        ps, it = ctx.paths(adc, fut, depth=0)
+        cbs = set()
+        for p in ps:
+            for e in p.calls():
+                if q.call_name(e) in ("append", "add") and q.self_field(q.recv(e)) and e.d["args"] == (("param", adc.params[1]),):
+                    cbs.add(q.recv(e)[2])
+        if len(cbs) != 1:
+            raise AnalysisError("%s.add_done_callback: the callback list is not unique (%s)" % (fut.name, sorted(cbs)))
+        self.cbs = cbs.pop()
+        disp = []
+        for m in fut.methods.values():
+            if m is adc:
+                continue
+            ps, it = ctx.paths(m, fut, depth=0)
+            if any(e.d[0] == "enter" and container_of(e.d[1]) == ("attr", SELF, self.cbs) for p in ps for e in p.evs("loop") if e.fn is m) and any(e.d.get("user") and e.fn is m for p in ps for e in p.calls()):
+                disp.append(m)
+        if len(disp) != 1:
+            raise AnalysisError("%s: the callback dispatcher is not unique (%s)" % (fut.name, [m.name for m in disp]))
+        self.dispatch = disp[0]
+        self.dispatch.role = "dispatch"
+        self.hook = cancel_hook(ctx, fut)
+        others = []
+        for m in fut.methods.values():
+            if m.name in ("cancel",) or m is self.dispatch:
+                continue
+            ps, it = ctx.paths(m, fut, depth=1, inline=lambda callee, ev, path: callee.owner is fut and callee is not self.dispatch)
+            if any(q.is_super_call(e, "cancel") for p in ps for e in p.calls()):
+                callers = [x for x in fut.methods.values() if x is not m and any(e.d["callee"] is m for p in ctx.paths(x, fut, depth=0)[0] for e in p.calls())]
+                if not callers:
+                    others.append(m)
+        self.cancelled_by_delegate = others[0] if len(others) == 1 else None
+        self.LOCK = ("attr", SELF, self.lock)
+        self.CBS = ("attr", SELF, self.cbs)
+
+
+def proto(ctx):
+    if getattr(ctx, "_proto", None) is None:
+        ctx._proto = Proto(ctx)
+    return ctx._proto
+
+
+def is_dispatch(callee):
+    return getattr(callee, "role", None) == "dispatch"
